@@ -1,6 +1,7 @@
 package main
 
 import (
+	"sync"
 	"fmt"
 	"go/types"
 	"regexp"
@@ -60,6 +61,8 @@ type Ctx struct {
 	ufs        map[string]bool
 	notes      map[string]bool // assumptions / abstractions used (trusted base)
 	unsupported []string       // reasons the function is (partly) outside the subset
+	depMu      sync.Mutex
+	depsDone   int
 	specFuncs  map[string]bool // spec functions already emitted
 	pendingSpec []func()
 }
@@ -159,6 +162,9 @@ func shortType(t types.Type) string {
 	s := types.TypeString(t, func(p *types.Package) string {
 		return strings.TrimPrefix(strings.TrimPrefix(p.Path(), modPath+"/pkg/"), modPath+"/")
 	})
+	// byte and rune are aliases: one heap key per underlying type
+	s = byteRe.ReplaceAllString(s, "uint8")
+	s = runeRe.ReplaceAllString(s, "int32")
 	return s
 }
 
@@ -307,9 +313,17 @@ func (c *Ctx) funcID(f *ssa.Function) Sx {
 // Emission of one obligation as an SMT-LIB file (cone of influence only)
 // ---------------------------------------------------------------------------------------------
 
+var byteRe = regexp.MustCompile(`\bbyte\b`)
+var runeRe = regexp.MustCompile(`\brune\b`)
 var tokRe = regexp.MustCompile(`[^\s()]+`)
 
 func (c *Ctx) computeDeps() {
+	c.depMu.Lock()
+	defer c.depMu.Unlock()
+	if c.depsDone == len(c.decls) {
+		return
+	}
+	defer func() { c.depsDone = len(c.decls) }()
 	for _, d := range c.decls {
 		if d.deps != nil {
 			continue
@@ -335,7 +349,7 @@ func (c *Ctx) header() string {
 	b.WriteString("(declare-sort Str 0)\n")
 	I := c.it.isort()
 	B8 := c.it.sort(intKind{8, false})
-	fmt.Fprintf(&b, "(declare-fun slen (Str) %s)\n(declare-fun sat (Str %s) %s)\n", I, I, B8)
+	fmt.Fprintf(&b, "(declare-fun slen (Str) %s)\n(declare-fun sbytes (Str) (Array %s %s))\n(define-fun sat ((s Str) (k %s)) %s (select (sbytes s) k))\n", I, I, B8, I, B8)
 	fmt.Fprintf(&b, "(declare-datatypes ((Slice 0)) (((mk_slice (sl_arr Int) (sl_off %s) (sl_len %s) (sl_cap %s)))))\n", I, I, I)
 	for _, s := range c.structs {
 		if !strings.Contains(s, "Iface") {
